@@ -85,7 +85,10 @@ def c18(tapes, params):
                 if j >= 0 and g.chance(1, 6, 'junk?'):
                     k = g.draw(5, 'junk')
                     # the corrupt line carries this record's time, or a later one (before the next record)
-                    nxt = chunk[j + 1][0] if j + 1 < len(chunk) else rt + 1.0
+                    # (before the next record of the *history*, which may sit in the next file: a logger
+                    # never stamps a line later than the lines it writes afterwards)
+                    later = [r[0] for r in recs if r[1] > serial]
+                    nxt = later[0] if later else rt + 1.0
                     if nxt - rt > 0.004 and g.chance(1, 2, 'junklater'):
                         rt = round(rt + min((nxt - rt) / 2.0, 0.5), 3)
                     if k == 0:
